@@ -5318,6 +5318,16 @@ class NameCheckVisitor(node_visitor.ReplacingNodeVisitor):
                 varname=root_composite.varname,
                 node=root_composite.node,
             )
+        root_value = attributes.get_root_value(root_composite.value)
+        if isinstance(root_value, MultiValuedValue) and not is_union(
+            root_composite.value
+        ):
+            # A type alias or TypeVar that resolves to a Union, possibly wrapped in Annotated
+            if isinstance(root_composite.value, AnnotatedValue):
+                root_value = annotate_value(root_value, root_composite.value.metadata)
+            root_composite = Composite(
+                root_value, root_composite.varname, root_composite.node
+            )
         if is_union(root_composite.value):
             results = []
             for subval in flatten_values(root_composite.value):
